@@ -4,10 +4,13 @@ package bfe_tls
 
 import (
 	"crypto/ecdsa"
+	"crypto/rand"
 	"fmt"
 	"crypto/rsa"
 	"io"
 	"net"
+	"reflect"
+	"sort"
 	"time"
 )
 
@@ -113,7 +116,8 @@ type VerifC41Result struct {
 	Protos []string
 }
 
-func VerifC41Negotiate(cfg *VerifC41Config, h *VerifC41Hello) VerifC41Result {
+// VerifC41BuildConfig builds the server Config (and preloads the session cache for hello h).
+func VerifC41BuildConfig(cfg *VerifC41Config, h *VerifC41Hello) *Config {
 	config := &Config{
 		MinVersion: cfg.MinVersion, MaxVersion: cfg.MaxVersion,
 		PreferServerCipherSuites: cfg.PreferServer, CipherSuites: cfg.CipherSuites,
@@ -173,10 +177,74 @@ func VerifC41Negotiate(cfg *VerifC41Config, h *VerifC41Hello) VerifC41Result {
 		}
 		config.ServerRule = sr
 	}
+	verifC41FillUnmodelled(config)
 	config.serverInitOnce.Do(config.serverInit)
 
-	fake := &verifC41Conn{}
-	c := Server(fake, config)
+	return config
+}
+
+type verifC41MultiCert struct{}
+
+func (verifC41MultiCert) Get(c *Conn) *Certificate { return nil } // no override
+
+// Every exported Config field that the C41 model does not drive gets a non-zero value (by reflection,
+// so that fields added later are covered too): a reload that forgets to copy ANY field then shows up
+// in VerifC41ConfigDiff.  None of these values influences readClientHello.
+func verifC41FillUnmodelled(config *Config) {
+	modelled := map[string]bool{"Certificates": true, "NameToCertificate": true, "NextProtos": true,
+		"ClientAuth": true, "CipherSuites": true, "CipherSuitesPriority": true, "PreferServerCipherSuites": true,
+		"Ssl3PoodleProofed": true, "SessionTicketsDisabled": true, "SessionTicketKey": true,
+		"SessionTicketKeyName": true, "ServerSessionCache": true, "SessionCacheDisabled": true,
+		"MinVersion": true, "MaxVersion": true, "CurvePreferences": true, "ServerRule": true}
+	v := reflect.ValueOf(config).Elem()
+	t := v.Type()
+	for i := 0; i < t.NumField(); i++ {
+		f := t.Field(i)
+		if f.PkgPath != "" || modelled[f.Name] || !v.Field(i).IsZero() {
+			continue
+		}
+		fv := v.Field(i)
+		switch f.Type.Kind() {
+		case reflect.Bool:
+			fv.SetBool(true)
+		case reflect.String:
+			fv.SetString("verif")
+		case reflect.Int, reflect.Int8, reflect.Int16, reflect.Int32, reflect.Int64:
+			fv.SetInt(1)
+		case reflect.Uint, reflect.Uint8, reflect.Uint16, reflect.Uint32, reflect.Uint64:
+			fv.SetUint(1)
+		case reflect.Ptr:
+			fv.Set(reflect.New(f.Type.Elem()))
+		case reflect.Slice:
+			fv.Set(reflect.MakeSlice(f.Type, 1, 1))
+		case reflect.Map:
+			fv.Set(reflect.MakeMap(f.Type))
+		case reflect.Array:
+			if f.Type.Elem().Kind() == reflect.Uint8 && fv.Len() > 0 {
+				fv.Index(0).SetUint(1)
+			}
+		case reflect.Func:
+			if f.Name == "Time" {
+				config.Time = time.Now
+			}
+		case reflect.Interface:
+			switch f.Name {
+			case "Rand":
+				config.Rand = rand.Reader
+			case "MultiCert":
+				config.MultiCert = verifC41MultiCert{}
+			case "ClientSessionCache":
+				config.ClientSessionCache = NewLRUClientSessionCache(1)
+			}
+		}
+	}
+}
+
+// VerifC41NegotiateOn runs readClientHello for hello h on a server-side Conn whose transport is a
+// fake connection created by VerifC41Listener (or by VerifC41Negotiate).
+func VerifC41NegotiateOn(c *Conn, h *VerifC41Hello) VerifC41Result {
+	fake := c.conn.(*verifC41Conn)
+	c.config.serverInitOnce.Do(c.config.serverInit)
 
 	m := &clientHelloMsg{
 		vers: h.Vers, random: make([]byte, 32), sessionId: h.SessionId, cipherSuites: h.Suites,
@@ -221,4 +289,52 @@ func VerifC41Negotiate(cfg *VerifC41Config, h *VerifC41Hello) VerifC41Result {
 	res.Npn = hs.hello.nextProtoNeg
 	res.Protos = hs.hello.nextProtos
 	return res
+}
+
+// VerifC41Negotiate: negotiation on a Config used directly (no listener, no reload).
+func VerifC41Negotiate(cfg *VerifC41Config, h *VerifC41Hello) VerifC41Result {
+	return VerifC41NegotiateOn(Server(&verifC41Conn{}, VerifC41BuildConfig(cfg, h)), h)
+}
+
+// VerifC41Listener is a net.Listener whose Accept returns a fresh fake connection.
+type VerifC41Listener struct{}
+
+func (VerifC41Listener) Accept() (net.Conn, error) { return &verifC41Conn{}, nil }
+func (VerifC41Listener) Close() error              { return nil }
+func (VerifC41Listener) Addr() net.Addr            { return &net.TCPAddr{} }
+
+// VerifC41ConnConfig returns the Config a server Conn was created with.
+func VerifC41ConnConfig(c *Conn) *Config { return c.config }
+
+// VerifC41ConfigDiff lists (by reflection over Config, so that new fields are covered automatically)
+// the exported fields whose values differ between a and b, except the ones a ticket-key reload is
+// meant to change.  Functions and interfaces are compared by identity, data by reflect.DeepEqual.
+func VerifC41ConfigDiff(a, b *Config) []string {
+	skip := map[string]bool{"SessionTicketKey": true, "SessionTicketKeyName": true}
+	va, vb := reflect.ValueOf(a).Elem(), reflect.ValueOf(b).Elem()
+	t := va.Type()
+	var out []string
+	for i := 0; i < t.NumField(); i++ {
+		f := t.Field(i)
+		if f.PkgPath != "" || skip[f.Name] { // unexported (sync.Once, mutex) or intentionally changed
+			continue
+		}
+		x, y := va.Field(i), vb.Field(i)
+		same := false
+		switch f.Type.Kind() {
+		case reflect.Func:
+			same = x.IsNil() == y.IsNil() && (x.IsNil() || x.Pointer() == y.Pointer())
+		case reflect.Map:
+			same = x.Len() == y.Len() && (x.IsNil() == y.IsNil()) && (x.IsNil() || x.Pointer() == y.Pointer())
+		case reflect.Interface, reflect.Ptr:
+			same = x.IsNil() == y.IsNil() && (x.IsNil() || reflect.DeepEqual(x.Interface(), y.Interface()))
+		default:
+			same = reflect.DeepEqual(x.Interface(), y.Interface())
+		}
+		if !same {
+			out = append(out, f.Name)
+		}
+	}
+	sort.Strings(out)
+	return out
 }
